@@ -23,9 +23,15 @@ ASSUMPTIONS = ["mido's byte-level reading/writing is trusted", "both neighbours 
 REQUIRED_FLAGS = ["tpb_not_24", "non_integer_position", "exact_tie", "note_off_as_note_on_velocity_0", "group_of_two_tracks",
                   "track_in_no_group", "meta_target_not_first", "overlap_across_tracks_fused", "long_run", "all_30_key_names",
                   "meta_subset_excludes_grouped_track", "same_file_object_converted_twice", "stray_note_event_in_grouped_track",
-                  "indices_as_numpy_integers"]
+                  "indices_as_numpy_integers", "signature_ABA_across_tracks", "signature_ABA_on_one_track",
+                  "signature_bar_not_whole_ticks"]
 
 TPBS = [24, 48, 96, 480, 10, 7, 36, 1000]
+# (S) every time signature n/d a MIDI file can state with these numerators and denominators (bars that are no whole
+# number of library ticks included: the loader has to route the event all the same), and every key, in an A - B - A
+# pattern whose members live on different considered tracks
+DENOMS = [1, 2, 4, 8, 16, 32, 64, 128]
+NUMERS = [1, 2, 3, 4, 5, 6, 7, 9, 10, 12, 14, 16, 18, 20, 24, 32]
 DELTAS = [0, 1, 7, 10, 240]
 MAJOR_OF = {"Am": "C", "Em": "G", "Bm": "D", "F#m": "A", "C#m": "E", "G#m": "B", "D#m": "F#", "A#m": "C#", "Dm": "F",
             "Gm": "Bb", "Cm": "Eb", "Fm": "Ab", "Bbm": "Db", "Ebm": "Gb", "Abm": "Cb"}
@@ -57,6 +63,8 @@ def units(ctx):
     for tpb in (480, 48, 10, 24):
         yield ("H", tpb)
     yield ("K",)
+    for di in range(len(DENOMS)):
+        yield ("S", di)
 
 
 def groupings(T):
@@ -107,6 +115,19 @@ def gen_cases(unit, ctx):
         # the SAME parsed file object converted several times (different groupings), as a caller comparing groupings does
         for word in ([7, 10, 1, 240, 7, 10], [1, 1, 1, 1, 1, 1, 1, 1], [10, 0, 7, 240, 1, 7, 10, 10, 7]):
             yield {"kind": "H", "tpb": unit[1], "word": word}
+    elif kind == "S":
+        d = DENOMS[unit[1]]
+        for n in NUMERS:
+            for B in ((4, 4), (3, 8)):
+                if (n, d) == B:
+                    continue
+                for layout in (0, 1, 2):
+                    yield {"kind": "S", "what": "ts", "A": [n, d], "B": list(B), "layout": layout, "tpb": [24, 480][(n + layout) % 2]}
+        for i, key in enumerate(sorted(MAJOR_OF.values())):
+            if i % len(DENOMS) == unit[1]:
+                for j, kb in enumerate(sorted(MAJOR_OF.values())):
+                    if kb != key:
+                        yield {"kind": "S", "what": "ks", "A": key, "B": kb, "layout": j % 3, "tpb": [24, 480][j % 2]}
     else:
         for key in MIDO_KEYS:
             for t in (0, 5):
@@ -340,6 +361,62 @@ def check_G(case, ctx, R):
     R.outcome = f"G{T}g{len(gs)}"
 
 
+def check_S(case, ctx, R):
+    """A - B - A signatures spread over the considered tracks; the signature in force at every tick must be the file's"""
+    what, A, B, layout, tpb = case["what"], case["A"], case["B"], case["layout"], case["tpb"]
+    A, B = (tuple(A), tuple(B)) if what == "ts" else (A, B)
+    f = tpb // 24
+    p = ctx["p"]
+
+    def sig(x, delta):
+        if what == "ts":
+            return mido.MetaMessage("time_signature", numerator=x[0], denominator=x[1], time=delta * f)
+        return mido.MetaMessage("key_signature", key=x, time=delta * f)
+    mf = mido.MidiFile(ticks_per_beat=tpb)
+    t0, t1 = mido.MidiTrack(), mido.MidiTrack()
+    # layout 0: the conductor track states A twice, the note track changes to B in between;
+    # layout 1: the note track states A twice, the conductor changes to B; layout 2: A, B, A all on the conductor track
+    rep, oth = (t0, t1) if layout in (0, 2) else (t1, t0)
+    rep.append(sig(A, 0))
+    if layout == 2:
+        rep.append(sig(B, 48))
+        rep.append(sig(A, 48))
+    else:
+        rep.append(sig(A, 96))
+        oth.append(sig(B, 48))
+    for tr, dp in ((t0, 0), (t1, 7)):
+        tr.append(mido.Message("note_on", note=p + dp, velocity=64, time=10 * f))
+        tr.append(mido.Message("note_off", note=p + dp, velocity=0, time=30 * f))
+    mf.tracks.extend([t0, t1])
+    mf.save(path_of(ctx))
+    R.flags.append("signature_ABA_across_tracks" if layout != 2 else "signature_ABA_on_one_track")
+    if what == "ts" and (96 * A[0]) % A[1]:
+        R.flags.append("signature_bar_not_whole_ticks")
+    want = [(0, A), (48, B), (96, A)]
+    for target, groups in ((0, [[0], [1]]), (1, [[0], [1]]), (0, [[0, 1]])):
+        seqs = Sequence.sequences_load(path_of(ctx), track_indices=groups, meta_track_indices=[0, 1], target_meta_track_index=target)
+        for gi, sq in enumerate(seqs):
+            for view, ev in (("abs", lib.view_abs(sq)[0]), ("rel", lib.view_rel(sq)[0])):
+                if what == "ts":
+                    got = sorted((e[0], (e[5], e[6])) for e in ev if e[1] == "time_signature")
+                else:
+                    got = sorted((e[0], e[7]) for e in ev if e[1] == "key_signature")
+                if gi != target:
+                    if got:
+                        R.bad("signature_on_non_meta_sequence", f"group {gi} {view}: {got}")
+                    continue
+                for t in (0, 47, 48, 95, 96, 200):
+                    exp = [x for tt, x in want if tt <= t][-1]
+                    g = [x for tt, x in got if tt <= t]
+                    # the loader's default 4/4 at tick 0 precedes a file signature on tick 0 in neither view
+                    if not g or g[-1] != exp:
+                        R.bad("signature_in_force_wrong", f"{what} layout {layout} groups {groups} target {target} {view}: at tick {t} "
+                                                          f"in force {g[-1] if g else None}, file says {exp}; loaded {got}")
+                        break
+    R.nontrivial = True
+    R.outcome = "S" + what
+
+
 def check_K(case, ctx, R):
     key, tick = case["key"], case["tick"]
     mf = mido.MidiFile(ticks_per_beat=24)
@@ -363,7 +440,7 @@ def check_K(case, ctx, R):
 def check_case(case, ctx):
     R = core.Res()
     try:
-        {"R": check_R, "G": check_G, "K": check_K, "H": check_H}[case["kind"]](case, ctx, R)
+        {"R": check_R, "G": check_G, "K": check_K, "H": check_H, "S": check_S}[case["kind"]](case, ctx, R)
     except core.HarnessError:
         raise
     except Exception as e:  # noqa: BLE001
